@@ -4,7 +4,8 @@ import CalVerif.Lemmas.Cfb
     Property theorems only (helper lemmas live in `Lemmas/Cfb.lean`).
 
     * reader model: `Model/Cfb.lean` (`Cfb.new`, `Cfb.getStream`, `Cfb.readStream`, …), mirroring
-      `src/cfb.rs` after the fixes D25 and D29;
+      `src/cfb.rs` after the fixes D25, D29 and their follow-ups (total `to_u32`, names decoded without
+      BOM sniffing, chains and allocation table bounded by the file length);
     * encoder: `Spec/CfbLayout.lean`: `layoutCfb streams L` lays the streams out as the layout `L`
       (data) says; `Valid streams L` is the decidable consistency condition. It constrains neither
       the sector size (512/4096), nor the allocation (`owner` is an arbitrary array: any injective
@@ -21,14 +22,16 @@ namespace Cfb
 /-- `chain_follow`: in ANY allocation table in which `ids` is recorded as a chain
     (`fats[ids[i]] = ids[i+1]`, the last one maps to ENDOFCHAIN), the bounded loop of `get_chain`
     started at `ids[0]` returns exactly the sectors `ids[0], …, ids[n-1]` in this order (their
-    contents concatenated), whatever the state of the lazy sector cache. No injectivity or ordering
-    assumption on `ids`: permuted and fragmented chains are covered. -/
+    contents concatenated), whatever the state of the lazy sector cache, provided the chain's bytes fit
+    the file length the reader was given (`hfit`; the fixed loop refuses to accumulate more). No
+    injectivity or ordering assumption on `ids`: permuted and fragmented chains are covered. -/
 theorem chain_follow (fats : List Nat) (body : Bytes) (ids : List Nat) (rem : Nat) (s : Sectors) (rd : Bytes)
     (hcache : s.data ++ rd = body) (hrem : ids.length ≤ rem)
-    (hchain : ∀ i (h : i < ids.length), ids[i] ≠ ENDOFCHAIN ∧ fats[ids[i]]? = some (ids[i+1]?.getD ENDOFCHAIN)) :
-    ∃ s' rd', Sectors.chainLoop fats rem (ids[0]?.getD ENDOFCHAIN) s rd =
+    (hchain : ∀ i (h : i < ids.length), ids[i] ≠ ENDOFCHAIN ∧ fats[ids[i]]? = some (ids[i+1]?.getD ENDOFCHAIN))
+    (hfit : ((ids.map (sec body s.size)).flatten).length ≤ s.limit) :
+    ∃ s' rd', Sectors.chainLoop fats rem (ids[0]?.getD ENDOFCHAIN) s rd 0 =
         .ok ((ids.map (sec body s.size)).flatten, s', rd') ∧ s'.data ++ rd' = body ∧ s'.size = s.size :=
-  chainLoop_follow fats body ids rem s rd hcache hrem hchain
+  chainLoop_follow fats body ids rem s rd 0 hcache hrem hchain (by omega)
 
 /-- the lazily filled cache is transparent: `Sectors::get` returns the sector of the underlying
     sector area (clipped at EOF), whatever has been read before -/
@@ -57,17 +60,23 @@ theorem truncate_to_size (ss : Nat) (fill : UInt8) (hss : 0 < ss) (D : Bytes) :
 theorem chain_fits_table (sp : Space) (c n : Nat) (h : chainOK sp c n = true) : n ≤ sp.owner.size :=
   chain_size_le sp c n h
 
-/-- chain read = data, for any chain of any space (main sectors or mini sectors), any `owner` -/
+/-- chain read = data, for any chain of any space (main sectors or mini sectors), any `owner`;
+    `hfit`: the space fits the file length the reader was given -/
 theorem chain_roundtrip (sp : Space) (ss : Nat) (hss : 0 < ss) (fill : UInt8) (P : Array (Array Bytes))
     (fatSec difSec : Nat → Bytes)
     (hP : UniformP ss P) (hf : ∀ j, (fatSec j).length = ss) (hd : ∀ j, (difSec j).length = ss)
     (c : Nat) (D : Bytes) (hPc : P[c]? = some (pieces ss fill D))
     (hok : chainOK sp c (nsect ss D.length) = true)
     (len : Nat) (hlen : sp.owner.size ≤ len) (hres : sp.owner.size ≤ RESERVED)
-    (s : Sectors) (rd : Bytes) (hsz : s.size = ss) (hinv : s.data ++ rd = sp.body ss fill P fatSec difSec) :
+    (s : Sectors) (rd : Bytes) (hsz : s.size = ss) (hinv : s.data ++ rd = sp.body ss fill P fatSec difSec)
+    (hfit : ss * sp.owner.size ≤ s.limit) :
     ∃ s' rd', s.getChain (chainStart sp c) (sp.fats len) rd D.length = .ok (D, s', rd') ∧
-      s'.data ++ rd' = sp.body ss fill P fatSec difSec ∧ s'.size = ss :=
-  Space.getChain_data sp ss hss fill P fatSec difSec hP hf hd c D hPc hok len hlen hres s rd hsz hinv
+      s'.data ++ rd' = sp.body ss fill P fatSec difSec ∧ s'.size = ss := by
+  obtain ⟨s', rd', he, hi, hz⟩ := Space.getChain_gen sp ss hss fill P fatSec difSec hP hf hd c D hPc hok len hlen
+    hres s rd [] hsz (by rw [List.append_nil]; exact hinv) hfit D.length
+  rw [stream_read_result ss fill hss] at he
+  rw [List.append_nil] at hi
+  exact ⟨s', rd', he, hi, hz⟩
 
 /-! ## header and directory entries -/
 
@@ -140,12 +149,11 @@ theorem containers_equal (streams : List Stream) (L₁ L₂ : Layout) (h₁ : Va
     readStream (layoutCfb streams L₁) st.name = readStream (layoutCfb streams L₂) st.name := by
   rw [cfb_roundtrip streams L₁ h₁ st hst, cfb_roundtrip streams L₂ h₂ st hst]
 
-/-! ## termination (C06 flavour): the chain walk of the fixed code is bounded by the table length,
-    whatever the allocation table contains (cycles included) -/
+/-! ## robustness on ARBITRARY bytes (C06 flavour): total, terminating, bounded by the file length -/
 
-theorem chainLoop_total (fats : List Nat) (rem id : Nat) (s : Sectors) (rd : Bytes) :
-    Sectors.chainLoop fats rem id s rd ≠ .outOfFuel :=
-  (chainLoop_clean fats rem id s rd).2
+theorem chainLoop_total (fats : List Nat) (rem id : Nat) (s : Sectors) (rd : Bytes) (acc : Nat) :
+    Sectors.chainLoop fats rem id s rd acc ≠ .outOfFuel :=
+  (chainLoop_clean fats rem id s rd acc).2
 
 /-- on ANY allocation table `get_chain` terminates with a result or an error (never out of fuel, never
     a panic): the loop is bounded by `fats.len()` iterations -/
@@ -153,31 +161,52 @@ theorem getChain_total (s : Sectors) (start : Nat) (fats : List Nat) (rd : Bytes
     s.getChain start fats rd len ≠ .outOfFuel ∧ ∀ m, s.getChain start fats rd len ≠ .panic m :=
   ⟨(getChain_clean s start fats rd len).2, (getChain_clean s start fats rd len).1⟩
 
-/-- `Cfb::new` on ARBITRARY bytes terminates (DIFAT walk bounded by the file length, chains by the table) -/
-theorem new_terminates (file : Bytes) (len : Nat) : Cfb.new file len ≠ .outOfFuel := (new_clean file len).2
+/-- `X_alloc` for `get_chain`: on ANY allocation table (cyclic, corrupt) the bytes it accumulates and returns
+    never exceed the file length the reader was given -/
+theorem getChain_alloc_bound (s : Sectors) (start : Nat) (fats : List Nat) (rd : Bytes) (len : Nat)
+    (x : Bytes) (s' : Sectors) (rd' : Bytes) (h : s.getChain start fats rd len = .ok (x, s', rd')) :
+    x.length ≤ s.limit := getChain_alloc s start fats rd len x s' rd' h
 
-/-- partial no-panic statement for `Cfb::new` on arbitrary bytes: the ONLY remaining panic is the
-    `assert_eq!(s.len() % 4, 0)` of `utils::to_u32` on a FAT / mini-FAT sector cut by EOF to a length that
-    is not a multiple of four (known finding, left in the code). Missing for the full statement
-    `∀ file, Cfb.new file len ≠ panic`: a length guard before those two `to_u32` calls. -/
+/-- `Cfb::new` on ARBITRARY bytes terminates (DIFAT walk bounded by the file length, chains by the table) -/
+theorem new_terminates (file : Bytes) (len : Nat) : Cfb.new file len ≠ .outOfFuel := (new_clean file len).2.1
+
+/-- `Cfb::new` is total: on EVERY byte string it returns `Ok` or `Err`, it never panics -/
+theorem new_no_panic (file : Bytes) (len : Nat) (m : String) : Cfb.new file len ≠ .panic m :=
+  (new_clean file len).1 m
+
+/-- the former partial statement (kept for the files that cite it): there is no panic left at all -/
 theorem new_no_panic_partial (file : Bytes) (len : Nat) (m : String) (h : Cfb.new file len = .panic m) :
-    m = "to_u32: assert_eq!(s.len() % 4, 0)" := (new_clean file len).1 m h
+    m = "to_u32: assert_eq!(s.len() % 4, 0)" := absurd h (new_no_panic file len m)
+
+/-- `X_alloc` for `Cfb::new` on ARBITRARY bytes: the allocation table has at most `len / 4` entries, the mini
+    stream at most `len` bytes, and both sector caches carry the limit `len` for later `get_stream` calls -/
+theorem new_alloc_bound (file : Bytes) (len : Nat) (c : CfbSt) (rd : Bytes) (h : Cfb.new file len = .ok (c, rd)) :
+    c.fats.length ≤ len / 4 ∧ c.mini.data.length ≤ len ∧ c.sectors.limit = len ∧ c.mini.limit = len :=
+  (new_clean file len).2.2 c rd h
 
 /-- `get_stream` on ARBITRARY reader state never panics and always terminates -/
 theorem getStream_no_panic (c : CfbSt) (name : List Char) (rd : Bytes) :
     (∀ m, getStream c name rd ≠ .panic m) ∧ getStream c name rd ≠ .outOfFuel := getStream_clean c name rd
 
-/-- on an acyclic (valid) chain the bound `fats.len()` is never the reason for an error: a fuel of
+/-- `X_alloc` for `get_stream`: a stream is never longer than the file length given to `Cfb::new` -/
+theorem getStream_alloc_bound (c : CfbSt) (name : List Char) (rd : Bytes) (len : Nat)
+    (h1 : c.sectors.limit = len) (h2 : c.mini.limit = len) (x : Bytes) (c' : CfbSt) (rd' : Bytes)
+    (h : getStream c name rd = .ok (x, c', rd')) :
+    x.length ≤ len ∧ c'.sectors.limit = len ∧ c'.mini.limit = len :=
+  getStream_alloc c name rd len h1 h2 x c' rd' h
+
+/-- on an acyclic (valid) chain that fits the file the bounds are never the reason for an error: a fuel of
     the number of sectors of the chain suffices (statement of `chain_follow` with `rem = ids.length`) -/
 theorem chain_fuel_suffices (fats : List Nat) (body : Bytes) (ids : List Nat) (s : Sectors) (rd : Bytes)
     (hcache : s.data ++ rd = body)
-    (hchain : ∀ i (h : i < ids.length), ids[i] ≠ ENDOFCHAIN ∧ fats[ids[i]]? = some (ids[i+1]?.getD ENDOFCHAIN)) :
-    ∃ r, Sectors.chainLoop fats ids.length (ids[0]?.getD ENDOFCHAIN) s rd = .ok r := by
-  obtain ⟨s', rd', he, _, _⟩ := chainLoop_follow fats body ids ids.length s rd hcache (Nat.le_refl _) hchain
+    (hchain : ∀ i (h : i < ids.length), ids[i] ≠ ENDOFCHAIN ∧ fats[ids[i]]? = some (ids[i+1]?.getD ENDOFCHAIN))
+    (hfit : ((ids.map (sec body s.size)).flatten).length ≤ s.limit) :
+    ∃ r, Sectors.chainLoop fats ids.length (ids[0]?.getD ENDOFCHAIN) s rd 0 = .ok r := by
+  obtain ⟨s', rd', he, _, _⟩ := chainLoop_follow fats body ids ids.length s rd 0 hcache (Nat.le_refl _) hchain (by omega)
   exact ⟨_, he⟩
 
 /-- a self-referencing chain is an error, not a hang (the D29 input) -/
-example : Sectors.getChain ⟨[], 512⟩ 0 [0] [1, 2, 3] 0 = .err "io" := by decide
+example : Sectors.getChain ⟨[], 512, 3⟩ 0 [0] [1, 2, 3] 0 = .err "io" := by decide
 
 /-! ## a concrete instance -/
 
